@@ -47,29 +47,63 @@ theorem overrun_refused_after_repair : (runL three (some 1) (init three) overrun
 
 end CV.Trav
 
-/-! ### graph construction (`newGraph`): the project is modified, and a cyclic project can be accepted
+/-! ### graph construction (`newGraph`) before `fix:` 3143716: the project was modified, a cyclic project could be accepted
 
-DESIGN §10 #5, replayed on the real code by `corpus/C13/self-dependency-optional-missing*.json`
-(oracle keys `project-modified:self-dependency+optional-missing-dependency`,
-`cycle-accepted:self-dependency+optional-missing-dependency`). -/
+DESIGN §10 #5.  The function as it was (`delete(s.DependsOn, name)` with the service's own name, on the caller's map,
+while ranging over it) is kept as `runOld`; `corpus/C13/self-dependency-optional-missing*.json` replay the witnesses on
+the real code, which now refuses them (oracle keys of the repaired defect:
+`project-modified:self-dependency+optional-missing-dependency`, `cycle-accepted:self-dependency+optional-missing-dependency`). -/
 namespace CV.DepGraph
+
+/-- the old inner loop: error (if any), the edges added, and whether the `delete` ran -/
+def scanDepsOld (en dis : List Name) (self : Name) : List Dep → List Name → Bool → Option Err × List Name × Bool
+  | [], es, del => (none, es, del)
+  | d :: rest, es, del =>
+    if del && d.name == self then scanDepsOld en dis self rest es del       -- deleted before the range reached it
+    else if en.contains d.name then scanDepsOld en dis self rest (es ++ [d.name]) del
+    else if d.required then (some (if dis.contains d.name then .disabled else .unknown), es, del)
+    else scanDepsOld en dis self rest es true                               -- delete(s.DependsOn, name); continue
+
+def depsAfterOld (self : Name) (deps : List Dep) (del : Bool) : List Dep :=
+  if del then deps.filter (fun d => d.name != self) else deps
+
+def buildOld (en dis : List Name) : List Svc → List (Name × List Name) → List Svc → Option Err × List (Name × List Name) × List Svc
+  | [], adj, done => (none, adj, done)
+  | s :: rest, adj, done =>
+    match scanDepsOld en dis s.name s.deps [] false with
+    | (none, es, del) => buildOld en dis rest (adj ++ [(s.name, es)]) (done ++ [⟨s.name, depsAfterOld s.name s.deps del⟩])
+    | (some e, _, del) => (some e, adj, done ++ ⟨s.name, depsAfterOld s.name s.deps del⟩ :: rest)
+
+def changedOfOld (before after : List Svc) : List Name :=
+  (before.zip after).filterMap fun (a, b) => if a.deps == b.deps then none else some a.name
+
+def runOld (p : Proj) : Outcome :=
+  let en := p.services.map (·.name)
+  match buildOld en p.disabled p.services [] [] with
+  | (some e, _, after) =>
+    { cls := match e with | .disabled => "disabled" | .unknown => "unknown" | .cycle => "cycle", changed := changedOfOld p.services after }
+  | (none, adj, after) =>
+    { cls := if checkCycle en (adjOf adj) then "cycle" else "ok", changed := changedOfOld p.services after }
 
 /-- service 0 depends (optionally) on 9, which is not a service, and on itself; the optional entry is iterated first -/
 def quirkFirst : Proj := ⟨[⟨0, [⟨9, false⟩, ⟨0, true⟩]⟩], []⟩
 /-- the same map iterated in the other order -/
 def quirkLast : Proj := ⟨[⟨0, [⟨0, true⟩, ⟨9, false⟩]⟩], []⟩
 
-/-- "the project is not modified" is false: in both orders the caller's `depends_on` of service 0 loses an entry -/
-theorem project_unmodified_false : ¬ ∀ p : Proj, (run p).changed = [] := by
+/-- "the project is not modified" was false: in both orders the caller's `depends_on` of service 0 lost an entry -/
+theorem project_unmodified_false : ¬ ∀ p : Proj, (runOld p).changed = [] := by
   intro h
   have := h quirkFirst
   revert this
   decide
 
-theorem project_modified_both_orders : (run quirkFirst).changed = [0] ∧ (run quirkLast).changed = [0] := by decide
+theorem project_modified_both_orders : (runOld quirkFirst).changed = [0] ∧ (runOld quirkLast).changed = [0] := by decide
 
-/-- "a cyclic graph is refused" is false: service 0 depends on itself, yet the outcome is `ok` when the optional
-missing dependency is iterated first (and `cycle` in the other order: the answer depends on Go's map order) -/
-theorem cyclic_refused_false : (run quirkFirst).cls = "ok" ∧ (run quirkLast).cls = "cycle" := by decide
+/-- "a cyclic graph is refused" was false: service 0 depends on itself, yet the outcome was `ok` when the optional
+missing dependency was iterated first (and `cycle` in the other order) -/
+theorem cyclic_refused_false : (runOld quirkFirst).cls = "ok" ∧ (runOld quirkLast).cls = "cycle" := by decide
+
+/-- **after the repair**: refused in both orders, nothing changed -/
+theorem quirk_refused_now : run quirkFirst = ⟨"cycle", []⟩ ∧ run quirkLast = ⟨"cycle", []⟩ := by decide
 
 end CV.DepGraph
